@@ -41,6 +41,8 @@ class Raised(Exception):
 
 
 class FuncRef:
+    closure = None      # environment of the defining frame for nested functions / lambdas (by reference)
+
     def __init__(self, mod, node, qual=None):
         self.mod, self.node, self.qual = mod, node, qual or node.name
 
@@ -319,6 +321,8 @@ class NpSym:
                 raise AnalysisError(f"npsym: {node.name} takes no arguments")
             return obj
         init(None, *args, **kwargs)
+        if getattr(self, "instance_hook", None) is not None:
+            self.instance_hook(obj)
         return obj
 
     def super_method(self, mod, cls_name, method, selfobj):
@@ -367,6 +371,10 @@ class NpSym:
         defaults = a.defaults
         dstart = len(params) - len(defaults)
         frame = _Frame(self, fr.mod, env)
+        frame.closure = fr.closure
+        if fr.closure is not None and getattr(fr.closure, "self_name", None) and "." not in (fr.qual or ""):
+            # super() / self resolution inside a nested function follows the enclosing method
+            pass
         frame.qual = fr.qual
         frame.self_name = params[0] if params else None
         for i, p in enumerate(params):
@@ -475,7 +483,15 @@ class _Frame:
                 if isinstance(t, ast.Name):
                     self.env.pop(t.id, None)
         elif isinstance(st, ast.With):
+            for it in st.items:
+                if it.optional_vars is not None:
+                    self.assign(it.optional_vars, self.ev(it.context_expr))
             self.block(st.body)
+            for it in st.items:
+                if it.optional_vars is not None and isinstance(it.optional_vars, ast.Name):
+                    v = self.env.get(it.optional_vars.id)
+                    if isinstance(v, Model) and hasattr(v, "close"):
+                        v.close(self)
         elif isinstance(st, ast.Raise):
             raise Raised(norm(st)[:200])
         elif isinstance(st, ast.Assert):
@@ -492,7 +508,9 @@ class _Frame:
                 else:
                     self.env[nm] = TORCH if al.name == "torch" else TorchMarker(al.name)
         elif isinstance(st, (ast.FunctionDef,)):
-            self.env[st.name] = FuncRef(self.mod, st, st.name)
+            fr_ = FuncRef(self.mod, st, st.name)
+            fr_.closure = self
+            self.env[st.name] = fr_
         elif isinstance(st, ast.Try):
             self.block(st.body)
             self.block(st.orelse)
@@ -724,6 +742,11 @@ class _Frame:
         if isinstance(e, ast.Name):
             if e.id in self.env:
                 return self.env[e.id]
+            c_ = getattr(self, "closure", None)
+            while c_ is not None:
+                if e.id in c_.env:
+                    return c_.env[e.id]
+                c_ = getattr(c_, "closure", None)
             if e.id in ("True", "False", "None"):
                 return {"True": True, "False": False, "None": None}[e.id]
             if e.id in BUILTINS:
@@ -817,8 +840,20 @@ class _Frame:
                     x = int(x)
                 if isinstance(x, np.ndarray) and x.size == 1 and x.dtype != object:
                     x = x.reshape(-1)[0].item()
-                if isinstance(x, (int, str, bool)) and v.format_spec is None and v.conversion == -1:
-                    parts.append(str(x))
+                if isinstance(x, np.ndarray) and x.size == 1:
+                    x = x.reshape(-1)[0]
+                if isinstance(x, sp.Basic) and x.is_Integer:
+                    x = int(x)
+                elif isinstance(x, sp.Basic) and x.is_number and x.is_real:
+                    x = float(x)
+                if isinstance(x, (int, str, bool, float)) and v.conversion == -1:
+                    spec = ""
+                    if v.format_spec is not None:
+                        spec = self.ev(v.format_spec)
+                    try:
+                        parts.append(format(x, spec))
+                    except (ValueError, TypeError):
+                        parts.append("<?>")
                 else:
                     parts.append("<?>")
             return "".join(parts)
@@ -828,7 +863,9 @@ class _Frame:
             return self.index(e)
         if isinstance(e, ast.Lambda):
             fn = ast.FunctionDef(name="<lambda>", args=e.args, body=[ast.Return(value=e.body)], decorator_list=[], lineno=e.lineno, col_offset=0)
-            return FuncRef(self.mod, fn, "<lambda>")
+            fr_ = FuncRef(self.mod, fn, "<lambda>")
+            fr_.closure = self
+            return fr_
         raise AnalysisError(f"npsym: expression {norm(e)[:80]}")
 
     def _elts(self, elts):
@@ -971,10 +1008,14 @@ class _Frame:
             if hasattr(base, a):
                 return getattr(base, a)
             raise AnalysisError(f"npsym: attribute `{a}` of the symbolic object `{norm(e.value)[:30]}` was not provided by the rule")
+        if base is BUILTINS.get("dict") and a == "fromkeys":
+            return lambda fr, keys, v=None: dict.fromkeys(list(fr.iterate(keys, None)), v)
         if isinstance(base, (list, dict, str, tuple, set)):
             return _BoundMethod(base, a)
         if isinstance(base, self.sp.Basic) or isinstance(base, (int, float)):
             return _BoundMethod(base, a)
+        if isinstance(base, (np.integer, np.bool_)):
+            return _BoundMethod(int(base), a)
         raise AnalysisError(f"npsym: attribute `{norm(e)[:50]}`")
 
     # ------------------------------------------------------------------ calls
@@ -1300,7 +1341,7 @@ class _Frame:
             return np.transpose(x, self._shape(args))
         if name == "t":
             return x.T
-        if name in ("clone", "detach", "contiguous", "cpu", "double", "float", "requires_grad_", "type_as", "cuda"):
+        if name in ("clone", "detach", "contiguous", "cpu", "double", "float", "requires_grad_", "type_as", "cuda", "numpy"):
             return x.copy() if name == "clone" else x
         if name in ("to", "type"):
             k = self._kind(kwargs) or next((("int" if a.name in INT_DTYPES else "bool" if a.name in BOOL_DTYPES else "obj") for a in args if isinstance(a, TorchMarker) and a.name.startswith("torch.") and a.name != "torch.device"), None)
